@@ -17,6 +17,7 @@ import RF.Driver.Idem
 import RF.Driver.Literal
 import RF.Driver.Comment
 import RF.Driver.ParseErrs
+import RF.Driver.Lists
 /-!
 `rfmodel`: one request per line on stdin, one response per line on stdout.
 `?` is printed for a request no handler understands (the harness treats it as a protocol error,
@@ -43,6 +44,7 @@ def handlers : List (String → List String → Option String) :=
    RF.Driver.Literal.handle,
    RF.Driver.Comment.handle]
    RF.Driver.ParseErrs.handle]
+   RF.Driver.Lists.handle]
 
 def dispatch (line : String) : String :=
   match (line.trimAscii.toString.splitOn " ").filter (· ≠ "") with
